@@ -1,5 +1,6 @@
 import NmVerif.NN.PoolLemmas
 import NmVerif.NN.ConvLemmas
+import NmVerif.NN.Conv2dLemmas
 /-
   C17 — neural-network routines equal their reference (PyTorch) definitions.
 
@@ -174,6 +175,68 @@ theorem conv1d_eq_nested_loop (x w : Arr Int) (bias : Option (Arr Int)) (Og g Cg
   refine ⟨r, h1, h2, fun o l ho hl => ?_⟩
   rw [h3 o l ho hl]
   exact conv1dLoop_congr_grp (grpCode_eq_grpSpec hdom ho) x w bias L Cg K _ _ _ l
+
+/-- **conv2d** (input `(1, g·Cg, H, W)`, weight `(Og·g, Cg, KH, KW)`, optional bias; stride / padding / dilation each `None`
+    or one integer applied to both planes): the `view::convnd` pipeline with `n_planes = 2` is defined, has the extents
+    `⌊(H + 2p − d(KH−1) − 1)/s⌋ + 1`, `⌊(W + 2p − d(KW−1) − 1)/s⌋ + 1`, and every element is the nested loop
+    `bias[o] + Σ_c Σ_kh Σ_kw xpad[grp(o)·Cg + c, i·s + kh·d, j·s + kw·d] · w[o,c,kh,kw]` with `grp(o) = o % g` (the code's
+    assignment).  The pair forms `(s_h, s_w)`, `(p_h, p_w)`, `(d_h, d_w)` are covered by the correspondence run only
+    (and the dilation pair is a known finding). -/
+theorem conv2d_eq_code_loop (x w : Arr Int) (bias : Option (Arr Int)) (Og g Cg H W KH KW : Nat) (stride padding dilation : Option Nat)
+    (hx : x.shape = [1, g * Cg, H, W]) (hw : w.shape = [Og * g, Cg, KH, KW]) (hb : ∀ b, bias = some b → b.shape = [Og * g])
+    (hOg : 0 < Og) (hg : 0 < g) (hKH : 0 < KH) (hKW : 0 < KW)
+    (hs : ∀ v, stride = some v → 0 < v) (hd : ∀ v, dilation = some v → 0 < v)
+    (hfH : Fits H KH (paddingOf padding) (dilationOf dilation)) (hfW : Fits W KW (paddingOf padding) (dilationOf dilation)) :
+    ∃ r, convnd 2 x w bias (form stride) (form padding) (form dilation) g = .ok r ∧
+      r.shape = [1, Og * g, outSize H KH (strideOf stride) (paddingOf padding) (dilationOf dilation),
+                 outSize W KW (strideOf stride) (paddingOf padding) (dilationOf dilation)] ∧
+      ∀ o i j, o < Og * g → i < outSize H KH (strideOf stride) (paddingOf padding) (dilationOf dilation) →
+        j < outSize W KW (strideOf stride) (paddingOf padding) (dilationOf dilation) →
+        r.get [0, o, i, j] = conv2dLoop (grpCode g) x w bias H W Cg KH KW (strideOf stride) (paddingOf padding) (dilationOf dilation) o i j := by
+  have hfH' : (KH - 1) * dilV (form dilation) + 1 ≤ H + 2 * padVal (form padding) := by
+    rw [dilV_form, padVal_form, Nat.mul_comm]; exact hfH
+  have hfW' : (KW - 1) * dilV (form dilation) + 1 ≤ W + 2 * padVal (form padding) := by
+    rw [dilV_form, padVal_form, Nat.mul_comm]; exact hfW
+  have := convnd2_eq_codeLoop (bias := bias) hx hw hb hOg hg hKH hKW (posForm_form hs) (intForm_form padding) (posForm_form hd) hfH' hfW'
+  simpa only [strideVal_form, padVal_form, dilV_form] using this
+
+/-- conv2d output shape = the standard formula on both planes, every `groups` -/
+theorem conv2d_out_shape_eq_formula (x w : Arr Int) (bias : Option (Arr Int)) (Og g Cg H W KH KW : Nat) (stride padding dilation : Option Nat)
+    (hx : x.shape = [1, g * Cg, H, W]) (hw : w.shape = [Og * g, Cg, KH, KW]) (hb : ∀ b, bias = some b → b.shape = [Og * g])
+    (hOg : 0 < Og) (hg : 0 < g) (hKH : 0 < KH) (hKW : 0 < KW)
+    (hs : ∀ v, stride = some v → 0 < v) (hd : ∀ v, dilation = some v → 0 < v)
+    (hfH : Fits H KH (paddingOf padding) (dilationOf dilation)) (hfW : Fits W KW (paddingOf padding) (dilationOf dilation)) :
+    ∃ r, convnd 2 x w bias (form stride) (form padding) (form dilation) g = .ok r ∧
+      r.shape = [1, Og * g, outSize H KH (strideOf stride) (paddingOf padding) (dilationOf dilation),
+                 outSize W KW (strideOf stride) (paddingOf padding) (dilationOf dilation)] := by
+  obtain ⟨r, h1, h2, _⟩ := conv2d_eq_code_loop x w bias Og g Cg H W KH KW stride padding dilation hx hw hb hOg hg hKH hKW hs hd hfH hfW
+  exact ⟨r, h1, h2⟩
+
+/-- **conv2d = the PyTorch nested loop** on the domain `groups = 1` or one output channel per group -/
+theorem conv2d_eq_nested_loop (x w : Arr Int) (bias : Option (Arr Int)) (Og g Cg H W KH KW : Nat) (stride padding dilation : Option Nat)
+    (hx : x.shape = [1, g * Cg, H, W]) (hw : w.shape = [Og * g, Cg, KH, KW]) (hb : ∀ b, bias = some b → b.shape = [Og * g])
+    (hOg : 0 < Og) (hg : 0 < g) (hKH : 0 < KH) (hKW : 0 < KW)
+    (hs : ∀ v, stride = some v → 0 < v) (hd : ∀ v, dilation = some v → 0 < v)
+    (hfH : Fits H KH (paddingOf padding) (dilationOf dilation)) (hfW : Fits W KW (paddingOf padding) (dilationOf dilation))
+    (hdom : g = 1 ∨ Og = 1) :
+    ∃ r, convnd 2 x w bias (form stride) (form padding) (form dilation) g = .ok r ∧
+      r.shape = [1, Og * g, outSize H KH (strideOf stride) (paddingOf padding) (dilationOf dilation),
+                 outSize W KW (strideOf stride) (paddingOf padding) (dilationOf dilation)] ∧
+      ∀ o i j, o < Og * g → i < outSize H KH (strideOf stride) (paddingOf padding) (dilationOf dilation) →
+        j < outSize W KW (strideOf stride) (paddingOf padding) (dilationOf dilation) →
+        r.get [0, o, i, j] = conv2dLoop (grpSpec (Og * g) g) x w bias H W Cg KH KW (strideOf stride) (paddingOf padding) (dilationOf dilation) o i j := by
+  obtain ⟨r, h1, h2, h3⟩ := conv2d_eq_code_loop x w bias Og g Cg H W KH KW stride padding dilation hx hw hb hOg hg hKH hKW hs hd hfH hfW
+  refine ⟨r, h1, h2, fun o i j ho hi hj => ?_⟩
+  rw [h3 o i j ho hi hj]
+  exact conv2dLoop_congr_grp (grpCode_eq_grpSpec hdom ho) x w bias H W Cg KH KW _ _ _ i j
+
+/-- non-vacuity for conv2d: C = 2 (groups 2, depthwise), 4×5 input, 2×3 kernel, stride 2, padding 1, dilation 1 -/
+example : ∃ r, convnd 2 ⟨[1, 2, 4, 5], fun _ => 1⟩ ⟨[2, 1, 2, 3], fun _ => 1⟩ none (form (some 2)) (form (some 1)) (form none) 2 = .ok r ∧
+    r.shape = [1, 2, 3, 3] := by
+  obtain ⟨r, h1, h2⟩ := conv2d_out_shape_eq_formula ⟨[1, 2, 4, 5], fun _ => 1⟩ ⟨[2, 1, 2, 3], fun _ => 1⟩ none 1 2 1 4 5 2 3 (some 2) (some 1) none
+    rfl rfl (by intro b h; cases h) (by decide) (by decide) (by decide) (by decide) (by intro v h; cases h; decide) (by intro v h; cases h)
+    (by decide) (by decide)
+  exact ⟨r, h1, h2⟩
 
 /-- witnesses used by the examples / counterexamples: `x[0,c,j] = 10·c + j + 1`, `w[o,c,k] = 100·o + 10·c + k + 1` -/
 def xW (shape : Shape) : Arr Int := ⟨shape, fun i => match i with | [_, c, j] => (10 * c + j + 1 : Nat) | _ => 0⟩
